@@ -126,6 +126,11 @@ clean --dry-run over clean LISTS (CleanWorld / CleanRunner below; model: Introsp
   Encoding (enc_cres): [0] cleaned ids -1 events -1 one 0/1 per file 0..14 -7 DB | [96] InvalidCommand | [97] KeyError
       events: [1; t; dryrun] Task.clean entered | [2; t; i] "t - executing '...'" (i-th of t) |
               [3; t; i; 0/1 flag received, 2 no dryrun parameter / cmd] action i executed | [4; t; f] "t - removing file 'f'"
+
+clean --dry-run over targets that are DIRECTORIES (harness/c20_dirs.py, part `clean-dirs`; model: Model/Clean.v's command)
+  Trees of directories and files that are targets (of one task, of two, of none), created by a real run and then changed by hand
+  (files deleted, directories emptied / removed / given foreign content); `clean -n` with every option combination between
+  snapshots of the whole tree (directories included), the DB records and the DB files; see the module's docstring.
 """
 import contextlib, gc, hashlib, io, json, os, re, shutil, sys, time
 import common
@@ -174,7 +179,11 @@ PRE = ('From DoitV Require Import Base Status History Introspect.\nFrom DoitV Re
        '{| Clean.o_dryrun := dry; Clean.o_cleandep := cd; Clean.o_cleanall := ca; Clean.o_forget := fg; Clean.o_pos := pos; Clean.o_sel := sl |}.\n'
        'Definition CW (fs : cfs) (d : db) : cworld := {| c_fs := fs; c_db := d; c_ev := [] |}.\n'
        'Definition DRY (ops : list fop) : cact := CPyDry (fun d : bool => if d then [] else ops).\n'
-       'Definition SN (n : N) : Clean.sel N := Clean.SName n.\nDefinition SP (p : N) : Clean.sel N := Clean.SPat p.\n')
+       'Definition SN (n : N) : Clean.sel N := Clean.SName n.\nDefinition SP (p : N) : Clean.sel N := Clean.SPat p.\n'
+       # clean --dry-run over targets that are directories (c20_dirs.py): Model/Clean.v's table and world
+       'Definition KT (n : name) (td su : list name) (sub : option name) (cl : option (list bool)) (tg : list Clean.path) : Clean.task := '
+       '{| Clean.t_name := n; Clean.t_task_dep := td; Clean.t_setup := su; Clean.t_subtask_of := sub; Clean.t_clean := cl; Clean.t_targets := tg |}.\n'
+       'Definition KW (fs : Clean.fsys) (d : list name) : Clean.world := {| Clean.w_fs := fs; Clean.w_db := d; Clean.w_ev := [] |}.\n')
 
 OLD_NS = (BASE - 10 ** 6) * 10 ** 9      # the mtime every DB file is given just before a read-only command (file-level frame)
 KNOWN_DRYRUN_CLOSE = 'dryrun-clean-rewrites-json-db'
@@ -1751,7 +1760,11 @@ class CleanRunner:
             ff = file_frame(out, w.backend, label, True, dbf0, dbf1, False)
             if ff:
                 self.violation(ff[1], ff[0], dict(cmd=label, db_files_before=sorted(dbf0), db_files_after=sorted(dbf1)))
-        # ---- correspondence
+        return self.correspond(o, label, rc, txt, trace, recs0, recs1, ex0, ex1)
+
+    def correspond(self, o, label, rc, txt, trace, recs0, recs1, ex0, ex1):
+        """the command against the model (DirRunner of c20_dirs.py: Model/Clean.v's command, targets that are directories)"""
+        w = self.w
         obs = clean_observation(w, rc, txt, trace)
         if obs[0] == 0:
             obs = obs + [1 if f in ex1 else 0 for f in CFILES] + [-7] + w.db_ints(recs1)
@@ -2346,7 +2359,11 @@ RULE = ('scripted histories (calc_dep, missing file_dep with changed dep / false
         'positional selections, then one real clean and a dry-run after it; every command is a non-trivial case.  File-level frame around every read-only command '
         '(DB files: same set, bytes, mtimes) + step Frame (fixed list of every kind of read-only command; no DB / after a run / after ignore + checker switch; three backends, every seed) '
         '+ interleaving scenarios (json: a complete `doit run W` of a sub-process started by a task-creator / an uptodate callable while list / info / help / tabcompletion / clean -n is in progress; '
-        'three prior states; every scenario is a non-trivial case)')
+        'three prior states; every scenario is a non-trivial case) '
+        '+ clean --dry-run over targets that are DIRECTORIES (c20_dirs.py): random trees of depth <= 3 whose nodes (directories, files) are targets of up to 8 tasks '
+        '(parent and child of one task or of two; foreign content; targets never created) with clean: True / clean_targets inside a list / lists of python callables / no clean; '
+        'history = run (creates the tree), then files deleted / directories emptied, removed or given foreign content, then `clean -n` with every combination of -c -a --forget and selections, '
+        'one real clean, dry-runs after it (thorough: a second run + changes + batch); two scripted worlds every seed; every command is a non-trivial case')
 
 
 def run(ctx):
@@ -2437,6 +2454,9 @@ def run(ctx):
     out.extra['clean_worlds'] = len(specs)
     out.extra['clean_commands'] = len(cases) - n_before
     out.extra['clean_seconds'] = round(time.time() - t1, 1)
+    # clean --dry-run over targets that are directories (emptied / filled / removed after the run): c20_dirs.py
+    import c20_dirs
+    c20_dirs.run_part(ctx, out, cases, backends)
     out.extra['command_runs'] = out.evaluations
     out.extra['impl_seconds'] = round(time.time() - t0, 1)
     if cases:
@@ -2455,10 +2475,12 @@ def run(ctx):
                        'the dbm backend is dbm.dumb in this environment (no gdbm / ndbm module)',
                        'callables in uptodate are oracles (Some true / Some false / None); tools.run_once, config_changed (string form) and result_dep on a plain task are modelled',
                        'help, dumpdb and tabcompletion are tied by snapshots only (model: no transition); so are the clean --dry-run variants inside the list/info histories',
-                       'clean lists: what a user-written clean action does to files is an oracle carried by the action; the instrumented callables with a `dryrun` parameter honour it (hypothesis `honest` of C20_clean_cmd_dryrun_frame); targets are regular files (directories: C14)',
+                       'clean lists: what a user-written clean action does to files is an oracle carried by the action; the instrumented callables with a `dryrun` parameter honour it (hypothesis `honest` of C20_clean_cmd_dryrun_frame); targets are regular files there; directories as targets: the clean-dirs part (c20_dirs.py) against Model/Clean.v, where a user-written clean action has no effect on files (the instrumented ones have none) and '
+                       'clean_targets INSIDE a list is judged by the oracles only; symbolic links, permission failures and mount points are neither generated nor modelled',
                        'layout of the printed lines (--quiet, --template, column width, the attribute listing of info) is not modelled']
     out.extra['trusted_base'] = ['harness/c20.py: World (real commands in-process), snapshots, parsers of the printed text, State (Coq literals of the state read back), true_reasons (oracle)',
                                  'harness/c20.py: CleanTrace (sys.setprofile record of Task.clean / action.execute / clean_targets calls), CleanWorld (instrumented clean callables, shell commands), clean_observation',
+                                 'harness/c20_dirs.py: DirWorld (tree of directories and files built by the task actions and by the `after` operations), dir_observation, World.fs_snapshot (os.walk: directories included)',
                                  'harness/c20.py: file_frame / World.dbfiles (os.stat + sha1 of the DB directory), end_of_process (drops the sqlite3 converter closure that keeps the previous connection open), Interleave (sub-process `python -m doit run`), '
                                  'cache_entry_points (importlib.metadata.entry_points memoised per group for the duration of the check)',
                                  'md5 oracle = identity on content ids (the 5 byte strings used have distinct digests); name order oracle = Python sorted() on the task names']
@@ -2484,6 +2506,10 @@ def replay(ctx, payload):
     if case.get('kind') == 'clean-lists':
         r = CleanRunner(ctx, out, case.get('backend', 'json'), case['spec'])
         r.run()
+        return replay_verdict(out, payload)
+    if case.get('kind') == 'clean-dirs':
+        import c20_dirs
+        c20_dirs.replay(ctx, out, case)
         return replay_verdict(out, payload)
     if case.get('kind') == 'interleave':
         Interleave(ctx, out, case['scenario']).run()
